@@ -9,7 +9,7 @@ ID = "C03"
 MODULE = "C03"
 IMPORTS = "Bytes RustInt Range CacheControl Cache CacheProofs Fixture CacheX CacheXProofs CacheXWitness CacheKey CacheKeyProofs RuleSet CacheRules CacheRulesProofs CacheReachProofs CacheFixtureProofs"
 PROFILES = ("dev",)
-MAX_NOT_EXECUTED = 0
+MAX_NOT_EXECUTED = 4      # timed histories that could not be run within their slack after 3 x 3 attempts (set per tier in generate); everything else always runs
 _PINS = json.load(open(os.path.join(os.path.dirname(os.path.abspath(__file__)), "pins", "C03.json")))
 THEOREMS = [(n, _PINS[n]) for n in ("cache_transparent", "cache_hit_same_class", "cache_transparent_from_empty", "key_injective",
                                     "cache_transparent_uri", "cache_hit_same_uri", "query_start_needed",
@@ -34,11 +34,28 @@ RULE = ("histories of requests/clears/waits against kvarn::handle_cache in proce
         "/x/y?z=1 vs /x/yz=1, /a?/b vs /a/b, /a?bc vs /ab?c, /?a vs /a, /q?x=1 vs /qx=1, /ab? vs /a?b —, empty vs absent query (/a? vs /a) and an "
         "encoded '?' (/a?b vs /a%3Fb), in both orders, against the assignments of {None, QueryMatters, Full} to the handlers of the two paths, and "
         "random histories (requests, clears) over these URIs. "
+        "Family 'spell': %-escaped spellings of one path (/page, /p%61ge, /%70age; /data.json, /data%2Ejson, /data%2ejson; /a/b, /a%2Fb; /~u, /%7Eu, "
+        "/%7eu ...), which kvarn routes as DIFFERENT requests: a handler bound to the plain path only (the others are 404), handlers bound to "
+        "every spelling that echo the raw path, handlers with their own status/body per spelling, files whose content type is guessed from the "
+        "raw extension (real-vs-real only); directed orders (plain first, odd first, with query, encoded '?', two odd spellings) and random "
+        "histories with clears. Family 'rules': vary rule sets in which an exact rule stands next to patterns '<prefix>*' covering the same path "
+        "(/lang + /lang*; /api + /api* + /a*; /lang* + /lang + /*; ...) added in random order, every pattern varying on ANOTHER header, pages whose "
+        "handlers echo the tuple of the rule that applies to them, requests with different values of each header. Family 'expand': default "
+        "extensions, a vary rule on the page a short spelling expands to ('/', 'dir/', 'name.'), the item entering the cache through the short or "
+        "the long spelling, then other header values, clears of either spelling. Family 'ovrules': an override Prime on a host whose page and "
+        "internal route carry vary rules on different headers. Every real-vs-real scenario is also given to the model component pipex.wf "
+        "(wf_fixture: does theorem fixture_cache_transparent apply to this configuration?) — counted per family in the evidence; a scenario of "
+        "the families rules / expand / ovrules / spell that was built for the theorem's domain and is rejected fails the run as a generator error. "
         "distinct_nontrivial = distinct (history, model outcome) pairs containing at least one cache hit")
 ASSUMPTIONS = [
     "handlers honour their cache contract (theorem hypotheses: response is a function of method class, path of the URI that selects the handler "
-    "(the internal route when a Prime overrode the URI), (query if QueryMatters), vary tuple; error responses are not cacheable); fixture handlers "
-    "satisfy it by construction. The earlier extra hypothesis 'query-matters-ness is uniform per path' is gone: it was needed only because of the "
+    "(the internal route when a Prime overrode the URI), (query if QueryMatters), vary tuple; error responses are not cacheable). For the fixture "
+    "this is now a THEOREM (fixture_honours_contract / fixture_cache_transparent) for every configuration that passes wf_fixture (no counting "
+    "handler, no extended switch/stream handler, path-echo handlers QueryMatters and not an internal route, tuple-echo handlers echoing the "
+    "rules of their path); the extended handlers of the families random / negotiation / timed (selection by a raw header value: a function of "
+    "the transformed tuple only on the generated lower-case values) and path-echo handlers declared Full (histories without queries) satisfy it "
+    "by construction only. cache_transparent_reachable asks the contract only of the (request, override URI) pairs the Primes produce. "
+    "The earlier extra hypothesis 'query-matters-ness is uniform per path' is gone: it was needed only because of the "
     "defect witnessed by qm_variant_refuted, now repaired",
     "'query' in the contract is the NON-EMPTY query (Model/CacheKey.v eff_query): comprash::PathQuery stores path and query without the '?', so "
     "'/a?' and '/a' are one key by design (PathQuery::query's documentation and kvarn's own tests path_query_empty_query_1/4); a QueryMatters "
@@ -48,11 +65,17 @@ ASSUMPTIONS = [
     "sequential histories (one request at a time); the race between expiry and handle_vary_missing's second lookup is not modelled (C05)",
     "content negotiation is abstracted in the model (C06): bodies are compared after decoding content-encoding with standard decoders; the "
     "real-vs-real oracle compares the content-encoding / content-type headers and the 406 answers directly",
+    "the key is made from the RAW path (key_is_raw_path); sanitize_request's percent-decoding is not in Model/CacheX.v (C01's subject, Model/PathSan.v): "
+    "the generated %-escapes are ones whose decoded path passes the './' / '//' tests exactly when the raw path does",
+    "vary rule sets are read through C14's model of extensions::RuleSet (Model/RuleSet.v: add_mut in the order of the configuration, insertion "
+    "sort standing for sort_unstable_by; C14's most_specific_rule covers every permutation the sort may return)",
     "timed histories: a scenario in which a request started or ended more than 450 ms late is run again and then reported as not executed",
 ]
 TRUSTED = ["modelled (Model/CacheX.v): src/lib.rs handle_cache + handle_cache_helpers (get_response's key, get_cache, maybe_cache, handle_vary_missing), "
            "src/comprash.rs UriKey/PathQuery (From<&Uri>, derived PartialEq/Eq/Hash = Model/Cache.v path_query/key_eqb)/MokaCache::{get_cache_item,insert,insert_cache_item}/ServerCachePreference::cache, src/host.rs "
-           "clear_page/status filter, extensions.rs uri_redirect prime, the default CORS denial route; handlers/vary rules/override Prime are the "
+           "clear_page/status filter, extensions.rs uri_redirect prime, the default CORS denial route, Vary::rules_from_path = extensions::RuleSet::{add_mut,get} "
+           "(Model/RuleSet.v through CacheX.v rules_for_x: exact rule, else longest pattern) for the path of the URI the response is cached under; "
+           "handlers/vary rules/override Prime are the "
            "fixture menu (harness/src/c00pipe.rs + c04x.rs = Model/Fixture.v + CacheX.v)"]
 LEVEL_TEXT = ("Coq theorem cache_transparent over the full cache model (streams, body sizes, the host's status filter, override URIs of Prime extensions, "
               "vary variants with admission): for every history of requests, clears and waits, under the handler contract, every reply of the caching "
@@ -62,7 +85,19 @@ LEVEL_TEXT = ("Coq theorem cache_transparent over the full cache model (streams,
               "PartialEq/Hash of UriKey and PathQuery — holds of the PathQuery keys of two URIs exactly when path and non-empty query are equal, of "
               "the Path keys exactly when the paths are equal, never across the two kinds: '/a'+'b' is not '/ab'), with which cache_transparent_uri "
               "and cache_hit_same_uri restate the two theorems with the handler contract and the conclusion in terms of the URI's path and query "
-              "instead of the key; query_start_needed (witness: compared on the concatenated string alone, /a?b and /ab are one key). Three defects of the code before its repair are "
+              "instead of the key; query_start_needed (witness: compared on the concatenated string alone, /a?b and /ab are one key); key_is_raw_path (whichever "
+              "of its two keys an entry is stored under for one URI and looked up with for another, equal keys mean equal RAW paths: percent-spellings of "
+              "one decoded path never share an entry) with decoded_key_collides_refuted (keys made from the decoded path merge /page and /p%61ge although "
+              "the fixture's routing answers 200 and 404); vary_rules_most_specific / vary_exact_rule_wins / vary_longest_pattern_wins (the rules the "
+              "model applies to a cached page are those of C14's independent resolver: an exact rule beats every covering pattern whatever the lengths, "
+              "else the longest pattern) with length_first_shadows_exact_refuted (sorted by length first, /lang* shadows /lang and the page's x-w "
+              "variants get one tuple); cache_transparent_reachable (the same simulation with the handler contract asked only of the (request, override "
+              "URI) pairs the Primes produce — what a path-echoing handler can meet); fixture_honours_contract + fixture_cache_transparent: for EVERY "
+              "configuration of the fixture menu accepted by wf_fixture (static / method-class / QueryMatters path-echo / tuple-echo handlers with any "
+              "status, headers, preference; exact + pattern vary rules; status filter; default extensions with the '/', 'dir/', 'name.' expansion and "
+              "the CORS denial route; override Prime) the contract HOLDS, hence for all histories the model of the caching host (pipex.run) and the "
+              "model of the cache-less host (pipex.run_nocache, the oracle) answer alike — the hypothesis of cache_transparent is discharged for the "
+              "very model the code is compared with; not for configurations with extended (switch / stream) handlers. Three defects of the code before its repair are "
               "proved as witnesses on the faithful old model (override_poisons_refuted: an internal route's answer stored under the page's key; "
               "qm_variant_refuted: a QueryMatters variant joined a path-keyed entry and was served for every query; stream_vary_refuted). Tied to the repo worktree by a differential run of the real kvarn::handle_cache against the extracted model on "
               "generated histories, for hosts with and without the response cache, and by the real-vs-real comparison of the two hosts.")
@@ -250,7 +285,8 @@ def spell_cases(rng, tier):
                     directed = [directed[0], rng.choice(directed[1:3])] + directed[3:]
                 for h in directed:
                     ops = [pipe.req(t, method=b"HEAD" if (j == 1 and rng.random() < 0.3) else b"GET") for j, t in enumerate(h)]
-                    cases += mk_cases(rng, hs, ops, rng.random() < 0.5, "spell", nocache_run=(tier != "quick"), expect_wf=(mode != 1 or sp == 1))
+                    cases += mk_cases(rng, hs, ops, rng.random() < 0.5, "spell", nocache_run=(tier != "quick"), expect_wf=(mode != 1 or sp == 1),
+                                      echo=b"for:" if mode == 1 else None)
     # random histories over the spellings of two paths
     for i in range(30 if tier == "quick" else 600):
         (p1, o1), (p2, o2) = rng.sample(SPELLINGS, 2)
@@ -400,7 +436,7 @@ def ovrules_cases(rng, tier):
     return cases
 
 
-def mk_cases(rng, hs, ops, default_ext, kind, xhs=(), vary=(), pair=True, run=True, nocache_run=True, expect_wf=False, **cfgkw):
+def mk_cases(rng, hs, ops, default_ext, kind, xhs=(), vary=(), pair=True, run=True, nocache_run=True, expect_wf=False, echo=None, **cfgkw):
     """expect_wf: the configuration is built to lie inside the domain of theorem fixture_cache_transparent (Model/CacheRules.v wf_fixture,
     evaluated by the model side as component pipex.wf); a scenario that does not is a generator error, reported loudly"""
     out = []
@@ -413,7 +449,7 @@ def mk_cases(rng, hs, ops, default_ext, kind, xhs=(), vary=(), pair=True, run=Tr
         for cache in ((True, False) if nocache_run else (True,)):
             c = pipe.cfg(cache=cache, **kw)
             out.append(Case("pipex.run", pipe.scenario(c, ops), "pipex.run_nocache" if cache else None,
-                            {"kind": kind + ("/cache" if cache else "/nocache")}))
+                            {"kind": kind + ("/cache" if cache else "/nocache"), **({"echo": echo} if echo else {})}))
     if pair:
         out.append(Case("pipex.pair", pipe.scenario(pipe.cfg(cache=True, **kw), ops), "pipex.wf", {"kind": kind + "/pair", "expect_wf": expect_wf}))
     return out
@@ -495,6 +531,10 @@ def generate(rng, tier):
         vh, xhs, rules = vary_pages(rng, True)
         ops = history(rng, rng.randrange(8, 13), timed=True)
         cases += mk_cases(rng, hs + vh, ops, False, "timed", xhs=xhs, vary=rules, pair=False, slack=SLACK)
+    # harness trouble is not a verdict: a timed history that cannot be run within its slack (machine under load) is retried (3 attempts in the
+    # harness, 3 runs by the driver), then counted and named as not executed; more than a quarter of them fails the run as a harness error
+    global MAX_NOT_EXECUTED
+    MAX_NOT_EXECUTED = max(4, sum(1 for c in cases if "timed" in c.meta.get("kind", "")) // 4)
     return cases
 
 
@@ -530,7 +570,29 @@ def spec_ok(c, impl, spec):
     return True
 
 
+def echo_oracle(c, impl):
+    """the property read on the implementation's output alone, for hosts all of whose handlers echo the raw path (and non-empty query) of the
+    request they were invoked for: every 200 answer to a GET names the path and query of ITS OWN request — an entry stored for one spelling
+    or query is never served for another"""
+    try:
+        ops, replies = c.x[1][1][1], _replies(impl)
+    except Exception:
+        return None
+    for i, (op, rp) in enumerate(zip(ops, replies)):
+        f = op[1]
+        if f[0] != ("N", 0) or f[2] != ("B", b"GET") or rp[0] != "L" or len(rp[1]) != 7 or rp[1][0] != ("N", 200):
+            continue
+        t = f[3][1]
+        path, _, q = t.partition(b"?")
+        want = c.meta["echo"] + path + (b"?" + q if q else b"")
+        if rp[1][2] != ("B", want):
+            return "op %d: GET %r answered 200 with body %r, which is not the echo of its own path and query (%r)" % (i, t, rp[1][2][1][:80], want)
+    return None
+
+
 def extra_oracle(c, impl):
+    if c.comp == "pipex.run" and c.meta.get("echo"):
+        return echo_oracle(c, impl)
     if c.comp != "pipex.pair":
         return None
     if impl != "(L)":
